@@ -73,7 +73,7 @@ pub fn trim_prefix(path: &PathBuf, prefix: &PathBuf) -> (r: PathBuf)
 //@ endins
 pub fn trim_suffix(path: &PathBuf, suffix: &PathBuf) -> (r: PathBuf)
     ensures
-        (path.utf8_ok() && suffix.utf8_ok() && is_suffix(suffix.pstr(), path.pstr())) ==> r.pstr() == path.pstr().take(path.pstr().len() - suffix.pstr().len()),   //@ clause trim_suffix.removes_the_suffix [C15]
+        (path.utf8_ok() && suffix.utf8_ok() && is_suffix(suffix.pstr(), path.pstr())) ==> r.pstr() == path.pstr().take(path.pstr().len() - suffix.pstr().len()) && r.comps() == parse(r.pstr()),   //@ clause trim_suffix.removes_the_suffix [C15]
         !(path.utf8_ok() && suffix.utf8_ok() && is_suffix(suffix.pstr(), path.pstr())) ==> r.pstr() == path.pstr() && r.comps() == path.comps(),                     //@ clause trim_suffix.otherwise_unchanged [C15]
 //@ body
 
@@ -333,3 +333,89 @@ pub proof fn lemma_schemes_recognised(s: Seq<char>)
     assert(!is_prefix(h, hs)) by { assert(h[4] == ':' && hs[4] == 's'); }
 }
 //@ obligation lemma_schemes_recognised props=C15
+
+// =====================================================================================================================
+// ext / trim_ext / name: the extension of the final component
+// ASSUMED[path-extension]: std Path::extension(): the text after the LAST '.' of the file name, None when there is no file name,
+// no '.', or the only '.' is the first character (".bashrc"); ".." is not a file name (it is ParentDir)
+pub open spec fn last_dot(c: Seq<char>, i: int) -> int decreases i {
+    if i <= 0 { -1 } else if c[i - 1] == '.' { i - 1 } else { last_dot(c, i - 1) }
+}
+pub open spec fn ext_chars(c: Seq<char>) -> Option<Seq<char>> {
+    let i = last_dot(c, c.len() as int);
+    if i <= 0 { None } else { Some(c.skip(i + 1)) }
+}
+pub open spec fn spec_ext(p: Comps) -> Option<Seq<char>> {
+    if p.len() > 0 && p.last() is Normal { ext_chars(name_chars(p.last()->Normal_0)) } else { None }
+}
+#[verifier::external_body] pub struct OsText { x: u8 }
+impl OsText {
+    pub uninterp spec fn view(&self) -> Seq<char>;
+    pub uninterp spec fn utf8(&self) -> bool;
+    #[verifier::external_body] pub fn to_string(&self) -> (r: RvResult<Str>) ensures r is Ok == self.utf8(), r is Ok ==> r->Ok_0@ == self@ { unimplemented!() }
+    #[verifier::external_body] pub fn is_empty(&self) -> (b: bool) ensures b == (self@.len() == 0) { unimplemented!() }
+}
+impl PathBuf {
+    #[verifier::external_body]
+    pub fn extension(&self) -> (r: Option<OsText>)
+        ensures r is Some == spec_ext(self.comps()) is Some,
+                r is Some ==> r->Some_0@ == spec_ext(self.comps())->Some_0 && r->Some_0.utf8() == name_utf8(self.comps().last()->Normal_0),
+    { unimplemented!() }
+}
+// R4: format!(".{}", s)
+#[verifier::external_body]
+pub fn fmt_dot(s: Str) -> (r: Str) ensures r@ == seq!['.'] + s@ { unimplemented!() }
+pub proof fn lemma_last_dot(c: Seq<char>, i: int)
+    requires 0 <= i <= c.len()
+    ensures -1 <= last_dot(c, i) < i, last_dot(c, i) >= 0 ==> c[last_dot(c, i)] == '.'
+    decreases i
+{
+    if i > 0 && c[i - 1] != '.' { lemma_last_dot(c, i - 1); }
+}
+// the law of the property: a name that has an extension is stem + '.' + extension
+pub proof fn lemma_name_is_stem_dot_ext(c: Seq<char>)
+    requires ext_chars(c) is Some
+    ensures is_suffix(seq!['.'] + ext_chars(c)->Some_0, c),
+            c.take(c.len() - (ext_chars(c)->Some_0.len() + 1)) + seq!['.'] + ext_chars(c)->Some_0 =~= c          //@ clause ext.name_is_stem_dot_extension [C15]
+{
+    lemma_last_dot(c, c.len() as int);
+    let i = last_dot(c, c.len() as int);
+    let e = c.skip(i + 1);
+    let t = seq!['.'] + e;
+    assert(c.skip(i) =~= t);
+    assert(c.len() - t.len() == i);
+    assert(c.take(i) + t =~= c);
+}
+//@ obligation lemma_last_dot props=C15
+//@ obligation lemma_name_is_stem_dot_ext props=C15
+
+//@ item ext file=src/sys/fs/path.rs fn=ext props=C15,C12
+pub fn ext(path: &PathBuf) -> (r: RvResult<Str>)
+    ensures spec_ext(path.comps()) is None ==> r is Err && r->Err_0.kind == ErrKind::ExtensionNotFound,
+            r is Ok ==> spec_ext(path.comps()) == Some(r->Ok_0@),                                                  //@ clause ext.is_text_after_last_dot_of_final_component [C15]
+            (spec_ext(path.comps()) is Some && name_utf8(path.comps().last()->Normal_0)) ==> r is Ok,
+//@ body
+//@ item trim_ext file=src/sys/fs/path.rs fn=trim_ext props=C15,C12
+//@ rw R4 1 re⟦format!\("\.\{\}", (.*?)\)\)⟧ => ⟦&PathBuf::from_s(fmt_dot(\1)))⟧
+pub fn trim_ext(path: &PathBuf) -> (r: RvResult<PathBuf>)
+    ensures
+        spec_ext(path.comps()) is None ==> r is Ok && r->Ok_0.pstr() == path.pstr() && r->Ok_0.comps() == path.comps(),
+        // an extension (even an empty one, "foo.") is removed together with its dot when the path text ends with it
+        (r is Ok && spec_ext(path.comps()) is Some && path.utf8_ok()) ==> r->Ok_0.pstr() == spec_trim_suffix(path.pstr(), seq!['.'] + spec_ext(path.comps())->Some_0),     //@ clause trim_ext.removes_dot_and_extension [C15]
+        (r is Ok && spec_ext(path.comps()) is Some && path.utf8_ok() && is_suffix(seq!['.'] + spec_ext(path.comps())->Some_0, path.pstr())) ==> r->Ok_0.comps() == parse(r->Ok_0.pstr()),
+//@ body
+pub open spec fn spec_trim_suffix(s: Seq<char>, t: Seq<char>) -> Seq<char> { if is_suffix(t, s) { s.take(s.len() - t.len()) } else { s } }
+pub open spec fn trim_ext_result(path: &PathBuf, t: &PathBuf) -> bool {
+    &&& spec_ext(path.comps()) is None ==> t.pstr() == path.pstr() && t.comps() == path.comps()
+    &&& (spec_ext(path.comps()) is Some && path.utf8_ok()) ==> t.pstr() == spec_trim_suffix(path.pstr(), seq!['.'] + spec_ext(path.comps())->Some_0)
+}
+//@ item name file=src/sys/fs/path.rs fn=name props=C15,C12
+//@ rw R1 1 ⟦base(trim_ext(path)?)⟧ => ⟦base(&trim_ext(path)?)⟧
+pub fn name(path: &PathBuf) -> (r: RvResult<Str>)
+    ensures
+        // the final component, without its extension
+        (r is Ok && spec_ext(path.comps()) is None && path.comps().len() > 0) ==> r->Ok_0@ == comp_str(path.comps().last()),
+        (r is Ok && spec_ext(path.comps()) is Some && path.utf8_ok() && is_suffix(seq!['.'] + spec_ext(path.comps())->Some_0, path.pstr())) ==> ({
+            let t = parse(path.pstr().take(path.pstr().len() - (spec_ext(path.comps())->Some_0.len() + 1)));
+            t.len() > 0 ==> r->Ok_0@ == comp_str(t.last()) }),                                                      //@ clause name.is_base_of_the_path_without_extension [C15]
+//@ body
